@@ -953,6 +953,13 @@ func c04checkFont(k *mon.Case, font *cff.Font, glyphs []*cff.Glyph, infos []c04i
 	}
 }
 
+func sign(x float64) float64 {
+	if x < 0 {
+		return -1
+	}
+	return 1
+}
+
 func runC04(c *mon.Ctx) {
 	// main stratum: fonts of ~20 glyphs
 	c.Stratum("fonts", c.N(6000, 500000), func(k *mon.Case) {
@@ -1230,6 +1237,30 @@ func runC04(c *mon.Ctx) {
 				g.CurveTo(x, y, x+10, y+10, x+20, y)
 				x += 20
 			}
+		}
+		if k.Index%3 == 0 {
+			// the last segment of the glyph has a delta of exactly +32768, the
+			// first value beyond the 16.16 range (or just below it, or -32768,
+			// the last value inside)
+			g = &cff.Glyph{Name: ".notdef", Width: 500}
+			x0 := float64(-16384 - r.IntN(15000))
+			y0 := float64(r.IntN(2000) - 1000)
+			d := []float64{32768, 32768 - 1.0/(1<<17), 32768 + 1.0/(1<<10), -32768}[k.Index/3%4]
+			g.MoveTo(x0, y0)
+			g.LineTo(x0+100, y0+50)
+			if d < 0 {
+				g.MoveTo(-x0, y0)
+				g.LineTo(-x0+100, y0+50)
+			}
+			switch r.IntN(3) {
+			case 0:
+				g.LineTo(x0+100+d*sign(-x0), y0+50)
+			case 1:
+				g.LineTo(x0+100+d*sign(-x0), y0+50+d*sign(-x0)/2)
+			default:
+				g.CurveTo(x0+110, y0+60, x0+120, y0+70, x0+120+d*sign(-x0), y0+70)
+			}
+			k.Class("big-deltas:last-delta-at-the-end-of-the-16.16-range")
 		}
 		c04check(k, []*cff.Glyph{g}, nil, false, "big-deltas:")
 	})
